@@ -34,8 +34,12 @@ pub struct Wire {
     pub rx: VecDeque<Rx>,
     /// Bytes of the front `Rx::Bytes` chunk already handed out.
     pub rx_off: usize,
-    /// Which error an `Rx::Err` event produces: 0 = `Io(ConnectionReset)`, 1 = `SocketRead`, 2 = `Io(TimedOut)`.
+    /// Which error an `Rx::Err` event produces: 0 = `Io(ConnectionReset)`, 1 = `SocketRead`, 2 = `Io(TimedOut)`,
+    /// 3 = `Io(Interrupted)` (and it stays: every further read fails the same way).
     pub err_kind: u8,
+    /// Which error a failing write produces: 0 = `Io(ConnectionReset)`, 1 = `Io(TimedOut)` (a send timeout),
+    /// 2 = `Io(WouldBlock)`, 3 = `Io(Interrupted)`, 4 = `Io(BrokenPipe)`.
+    pub write_err_kind: u8,
     /// What to do when `rx` is empty: `true` = `Ok(0)`, `false` = `Pending` (idle live peer).
     pub eof_when_empty: bool,
     /// Number of `read` polls (including those that returned `Pending`).
@@ -180,6 +184,7 @@ impl ReadHalf for VRead {
                         return spend(Poll::Ready(Err(match w.err_kind {
                             1 => zlink_core::Error::SocketRead,
                             2 => zlink_core::Error::Io(std::io::Error::new(std::io::ErrorKind::TimedOut, "injected fault")),
+                            3 => zlink_core::Error::Io(std::io::Error::new(std::io::ErrorKind::Interrupted, "injected fault")),
                             _ => io_err(),
                         })))
                     }
@@ -248,7 +253,15 @@ impl WriteHalf for VWrite {
             w.write_calls += 1;
             if w.write_broken || w.fail_write_at == Some(idx) {
                 w.write_broken = true;
-                return Poll::Ready(Err(io_err()));
+                use std::io::ErrorKind as K;
+                let kind = match w.write_err_kind {
+                    1 => K::TimedOut,
+                    2 => K::WouldBlock,
+                    3 => K::Interrupted,
+                    4 => K::BrokenPipe,
+                    _ => K::ConnectionReset,
+                };
+                return Poll::Ready(Err(zlink_core::Error::Io(std::io::Error::new(kind, "injected fault"))));
             }
             w.writes.push(buf.to_vec());
             Poll::Ready(Ok(()))
